@@ -38,8 +38,12 @@ def gen(rng, cid, plugin):
     cgs = {"/": W.root_cgroup(), "wl": W.cgroup(current=1 << 30)}
     pid = 100
     tie = rng.random() < 0.2
+    close = not tie and rng.random() < 0.25
+    cbase = rng.choice([1 << 26, 1 << 32, (1 << 32) + 12345, 1 << 40, 1 << 50, 1 << 58])  # n * cbase stays below 2^62
     for nm in names:
         cur = rnd_size(rng, mode) if not tie else rng.choice([1 << 20, 1 << 30])
+        if close:
+            cur = cbase + rng.randint(0, 4096)  # 64-bit byte counts that differ only in their low bits
         pr = lambda: (round(rng.uniform(0, 99), 2), round(rng.uniform(0, 99), 2), round(rng.uniform(0, 99), 2), 7)
         if rng.random() < 0.3:
             base = float(rng.randint(0, 90))
@@ -49,7 +53,7 @@ def gen(rng, cid, plugin):
             mem_pressure=W.psi(full=pr()), io_pressure=W.psi(full=pr()),
             stat=W.memstat({"pgscan": rng.randint(0, 10**6), "anon": cur // 3}),
             low=rng.choice([0, 0, rnd_size(rng, mode) // 2]), minv=rng.choice([0, 0, rnd_size(rng, mode) // 4]),
-            swap_current=rng.choice([0, rnd_size(rng, "small"), rnd_size(rng, mode) // 8]),
+            swap_current=(cbase // 2 + rng.randint(0, 2048)) if close else rng.choice([0, rnd_size(rng, "small"), rnd_size(rng, mode) // 8]),
             iostat=KG.iostat_text(rng))
         pid += 1
     args = {"cgroup": "wl/*"}
@@ -178,7 +182,7 @@ def judge(case, results):
             rk = K.Ranker(plugin, args, view)
             keys = rk.keys(view, temporal, roots)
             v.bad("first-choice", plugin, "tick %d %s args %s: first attempt %s, documented arg-max %s; keys %s" % (
-                ti, plugin, args, observed[0], groups[0], {k: [float(x) for x in (val if isinstance(val, tuple) else (val,))] for k, val in keys.items()}))
+                ti, plugin, args, observed[0], groups[0], {k: [str(getattr(x, "v", x)) for x in (val if isinstance(val, tuple) else (val,))] for k, val in keys.items()}))
             return v
         if len(groups[0]) < len(eligible):
             strict += 1
